@@ -1906,3 +1906,48 @@ def plan_totals_ok(ex, P, R, C, vmax):
     if not ds or any(not isinstance(d, int) for d in ds) or f.get("max_steps") != max(ds):
         return False
     return mk_bool(z3.And(*conj))
+
+
+# ----------------------------------------------------------------------------- WellRandomizer constructor (C15), concrete R x C
+
+
+@spec
+def randomizer_wf(ex, P, R, C, mode):
+    """`lookup` has exactly the wells of the R x C plate as keys and maps them bijectively onto the plate, `lookup_reverse`
+    is its inverse (same number of entries, every image well leads back to its original), and in row / column mode every
+    well keeps its row / column"""
+    from .values import MapV
+
+    lk, rv = P.fields.get("lookup"), P.fields.get("lookup_reverse")
+    if not isinstance(lk, MapV) or not isinstance(rv, MapV) or not lk.is_concrete() or not rv.is_concrete():
+        return False
+    if len(lk.items) != R * C or len(rv.items) != R * C:
+        return False
+    conj = []
+
+    def eq(a, b):
+        e = ops.equals(ex, ops.to_abstract(a), ops.to_abstract(b))
+        return z3.BoolVal(e) if isinstance(e, bool) else zbool(unwrap_bool(e))
+
+    grid = [WellV(r, c + 1) for r in range(R) for c in range(C)]
+    for w in grid:
+        hits = [v for k, v in lk.items if ops.equals(ex, ops.to_abstract(k), w) is True]
+        if len(hits) != 1:
+            return False
+        v = ops.to_abstract(hits[0])
+        if not isinstance(v, WellV):
+            return False
+        vr, vc = term(v.r, "int"), term(v.c, "int")
+        conj.append(z3.And(vr >= 0, vr < R, vc >= 1, vc <= C))
+        if mode == "row":
+            conj.append(vr == w.r)
+        if mode == "column":
+            conj.append(vc == w.c)
+        # the reverse map leads back: some entry has the key v, and every entry with the key v has the value w
+        conj.append(z3.Or(*[eq(k2, v) for k2, _ in rv.items]))
+        conj.append(z3.And(*[z3.Implies(eq(k2, v), eq(v2, w)) for k2, v2 in rv.items]))
+    ks = [k for k, _ in rv.items]
+    for i in range(len(ks)):
+        for j in range(i):
+            conj.append(z3.Not(eq(ks[i], ks[j])))
+    return mk_bool(z3.And(*conj))
